@@ -180,7 +180,7 @@ def year_ext(j):
     return "0" + s[1:3] if j >= 100 else "9" + s
 
 
-def write_weather(root, folder, layout, fcode, series, numheader=None, skip_years=(), windhi=None):
+def write_weather(root, folder, layout, fcode, series, numheader=None, skip_years=(), windhi=None, order=None):
     """layout 0: one file per year 'MET_<fcode>.<ext>' (day-of-year column); 1: '<fcode>.csv' (iso-date);
     2: '<fcode>.w6d' (@YYYYJJJ, no tavg column).  Returns the config keys selecting it."""
     wdir = os.path.join(root, "weather", folder)
@@ -206,18 +206,22 @@ def write_weather(root, folder, layout, fcode, series, numheader=None, skip_year
     if layout == 1:
         nh = (3 if windhi else 2) if numheader is None else numheader
         with open(os.path.join(wdir, "%s.csv" % fcode), "w") as f:
-            hdr = ["iso-date,tmin,tavg,tmax,precip,globrad,wind,relhumid", "-,C,C,C,mm,MJ m-2,m s-1,%",
+            keys = order or ["date", "tmin", "tavg", "tmax", "prec", "rad", "wind", "rh"]          # any column at any position
+            names = {"date": "iso-date", "tmin": "tmin", "tavg": "tavg", "tmax": "tmax", "prec": "precip", "rad": "globrad", "wind": "wind", "rh": "relhumid"}
+            hdr = [",".join(names[k] for k in keys), ",".join("-" for k in keys),
                    ("73;%s;-----" % windhi) if windhi else "# extra header line"]
             f.write("\n".join(hdr[:nh]) + "\n")
             for d, r in series:
-                f.write(",".join([d.isoformat(), r["tmin"], r["tavg"], r["tmax"], r["prec"], r["rad"], r["wind"], r["rh"]]) + "\n")
+                f.write(",".join(d.isoformat() if k == "date" else r[k] for k in keys) + "\n")
         return {"WeatherFile": "'%s.csv'", "WeatherFileFormat": 1, "WeatherNumHeader": nh}
     nh = 1 if numheader is None else numheader
     with open(os.path.join(wdir, "%s.w6d" % fcode), "w") as f:
-        hdr = ["@YYYYJJJ   TMIN    TMAX     RAD    PREC    WIND      RH", "# extra header line"]
+        keys = order or ["date", "tmin", "tmax", "rad", "prec", "wind", "rh"]
+        names = {"date": "@YYYYJJJ", "tmin": "TMIN", "tmax": "TMAX", "rad": "RAD", "prec": "PREC", "wind": "WIND", "rh": "RH"}
+        hdr = ["   ".join("%7s" % names[k] for k in keys), "# extra header line"]
         f.write("\n".join(hdr[:nh]) + "\n")
         for d, r in series:
-            f.write(" %04d%03d %7s %7s %7s %7s %7s %7s\n" % (d.year, doy(d), r["tmin"], r["tmax"], r["rad"], r["prec"], r["wind"], r["rh"]))
+            f.write(" " + " ".join("%7s" % (("%04d%03d" % (d.year, doy(d))) if k == "date" else r[k]) for k in keys) + "\n")
     return {"WeatherFile": "'%s.w6d'", "WeatherFileFormat": 2, "WeatherNumHeader": nh}
 
 
